@@ -55,6 +55,11 @@ def gen_layers(rng, p):
         hooks = [h for h in HOOKS if rng.random() < p['p_hook']]
         name = family[i] if family and i < len(family) else 'L%d' % i
         layers.append({'name': name, 'kind': kind, 'bases': bases, 'hooks': hooks})
+    if rng.random() < p.get('p_zz_module', 0.1):
+        # some layers live in a module whose dotted names sort after the unit-test layer's
+        for L in layers:
+            if rng.random() < 0.6:
+                L['mod'] = simrt.ZZMOD
     return layers
 
 
@@ -199,6 +204,7 @@ def materialise(world, root):
     os.makedirs(tests, exist_ok=True)
     _w(os.path.join(pkg, '__init__.py'), '')
     _w(os.path.join(pkg, 'layers.py'), simrt.LAYERS_STUB)
+    _w(os.path.join(src, simrt.ZZMOD + '.py'), simrt.ZZ_STUB)
     _w(os.path.join(tests, '__init__.py'), '')
     os.makedirs(os.path.join(root, 'xml'), exist_ok=True)    # target of --xml
     for m in world['modules']:
@@ -221,7 +227,9 @@ class Model:
         self.layers = {L['name']: L for L in world['layers']}
 
     def full(self, lname):
-        return UNIT if lname is None else simrt.LAYERMOD + '.' + lname
+        if lname is None:
+            return UNIT
+        return (self.layers[lname].get('mod') or simrt.LAYERMOD) + '.' + lname
 
     def short(self, full):
         return None if full == UNIT else full.rsplit('.', 1)[-1]
